@@ -53,12 +53,15 @@ def h_mod_restore(start: int):
     rel = s0 - start
     assert isinstance(rel, int) or True
     rel = int(rel)
-    assert 0 <= rel and rel + l0 <= len(TEXT) and TEXT[rel:rel + l0] == t0 and t0.strip() == BODY      # a consistent sub-span holding the body
+    # a consistent sub-span holding the body (a trailing connective such as 'and' may stay with the body when the modifier follows it)
+    assert 0 <= rel and rel + l0 <= len(TEXT) and TEXT[rel:rel + l0] == t0 and (t0.strip() == BODY or (sl('loose_body', 0) and t0.strip().startswith(BODY)))
     # and the returned entity is the original one again
     assert out.start == start and out.length == len(TEXT) and out.text == TEXT
     vals = out.value['values']
     assert len(vals) >= 1
-    if MOD:
+    if MOD == '*':
+        assert all(v.get('Mod') for v in vals), vals          # some modifier is reported (which one is the culture's business)
+    elif MOD:
         assert all(v.get('Mod') == MOD for v in vals), vals
     else:
         assert all('Mod' not in v for v in vals), vals
